@@ -1,3 +1,4 @@
+import MpsProps.Anchors.C05
 import MpsProps.C17
 import MpsProps.HandlerSrc
 import Mps.Malform
